@@ -278,6 +278,8 @@ class Calls:
 
     def apply_contract(self, ex, c, decl, this_path, bound, n, is_ctor=False):
         names = {name: path for name, path, p in bound}
+        for g in c.globals:
+            names[g] = ex.ensure_global(g)
         pre_store = dict(ex.store)
         env_pre = S.Env(ex, pre_store, names, this_path, dict(c.extra_env))
         extra = dict(c.extra_env)
